@@ -29,4 +29,10 @@ theorem src :
     Gen.Bip32Path.src_bip32path_parseUint31 = Expect.Bip32Path_src_bip32path_parseUint31 :=
   ⟨rfl, rfl, rfl, rfl, rfl⟩
 
+/-- everything else the package declares (imports, constants, types, variables, build constraints and the functions not
+pinned one by one) is unchanged too: no declaration of the modelled packages can change without a tie theorem failing. -/
+theorem rest :
+    Gen.Bip32Path.rest_bip32path = Expect.Bip32Path_rest_bip32path :=
+  rfl
+
 end Iota.Tie.C10
